@@ -61,6 +61,14 @@ func init() {
 				names = append(names, c.name)
 				types = append(types, c.typ)
 			}
+			if r.Intn(5) == 0 {
+				// remark columns (a name, no type) right of the typed columns: they are columns for the layout
+				// look-ahead, not fields
+				for k := 1 + r.Intn(2); k > 0; k-- {
+					names = append(names, "Remark"+string(rune('A'+k)))
+					types = append(types, "")
+				}
+			}
 			if lastIsFirstElem(names, types) {
 				continue // D16 (known finding) has its own witness
 			}
